@@ -10,7 +10,10 @@ package c20
 // healthy but slow, fails at once (connection refused), fails after a while, or refuses with a CheckTx code. Oracle
 // (6): once a node has accepted the tx of an attempt (CheckTx code 0), the same prices are not broadcast again
 // before the submitter has looked for that tx at least once, and not at all once the tx query has shown it executed
-// with code 0. Both halves are decided by what the stubs were asked and answered, never by the clock.
+// with code 0. Both halves are decided by what the stubs were asked and answered, never by the clock: a broadcast
+// is attributed to the attempt whose account sequence the tx carries (the account stub hands out one sequence number
+// per attempt of the whole case), not to whatever attempt is running when a slow node gets round to answering - the
+// submitter goes on as soon as one node has accepted and leaves the calls to the other nodes running behind it.
 
 import (
 	"context"
@@ -38,6 +41,7 @@ import (
 	"github.com/cosmos/cosmos-sdk/crypto/keyring"
 	sdk "github.com/cosmos/cosmos-sdk/types"
 	sdkerrors "github.com/cosmos/cosmos-sdk/types/errors"
+	authsigning "github.com/cosmos/cosmos-sdk/x/auth/signing"
 	authtypes "github.com/cosmos/cosmos-sdk/x/auth/types"
 	"github.com/cosmos/cosmos-sdk/x/authz"
 
@@ -234,6 +238,10 @@ type submitWorld struct {
 	txQueried map[string]int // lower-case tx hash -> tx queries made for it
 	txShownOK map[string]int // lower-case tx hash -> tx queries answered "executed with code 0"
 	nodeCalls map[int]int    // node kind -> broadcast calls
+	global    atomic.Int64   // attempts started in the whole case (the account sequence handed out is Seq + global index)
+	subBase   int64          // global index of attempt 0 of the running submission
+	lateCalls int64          // broadcast calls that reached a node after their submission was over
+	acceptLog []string       // one entry per accepted broadcast of the running submission (for messages)
 }
 
 func (w *submitWorld) outcome() int {
@@ -248,19 +256,32 @@ func (w *submitWorld) outcome() int {
 	return o
 }
 
+// outcomeAt is the drawn outcome of attempt i of the running submission.
+func (w *submitWorld) outcomeAt(i int64) int {
+	if i < 0 || w.cur == nil || len(w.cur.Outcomes) == 0 {
+		return oOK
+	}
+	o := w.cur.Outcomes[int(i)%len(w.cur.Outcomes)]
+	if o < 0 || o >= nOutcomes {
+		return oOK
+	}
+	return o
+}
+
 func hashOf(attempt int64) []byte { return []byte(fmt.Sprintf("attempt-%04d", attempt)) }
 
 // auth querier
 func (w *submitWorld) QueryAccount(address sdk.Address) (*authtypes.QueryAccountResponse, error) {
-	i := w.attempt.Add(1)
 	w.mu.Lock()
+	w.attempt.Add(1)
+	g := w.global.Add(1) - 1 // in step with the attempt index: global index = subBase + attempt
 	w.attempts++
 	w.executed = append(w.executed, w.outcome())
 	w.mu.Unlock()
 	if w.outcome() == oAcctErr {
 		return nil, fmt.Errorf("account query failed")
 	}
-	acc := authtypes.NewBaseAccount(sdk.AccAddress(address.Bytes()), nil, w.c.AccNum, w.c.Seq+uint64(i))
+	acc := authtypes.NewBaseAccount(sdk.AccAddress(address.Bytes()), nil, w.c.AccNum, w.c.Seq+uint64(g))
 	any, err := codectypes.NewAnyWithValue(acc)
 	if err != nil {
 		return nil, err
@@ -358,22 +379,31 @@ func (r *rpcStub) ABCIQueryWithOptions(_ context.Context, path string, data byte
 }
 
 func (r *rpcStub) BroadcastTxSync(_ context.Context, txBytes cmttypes.Tx) (*coretypes.ResultBroadcastTx, error) {
-	r.w.inspect(txBytes)
-	r.w.mu.Lock()
-	r.w.nodeCalls[r.kind]++
-	r.w.mu.Unlock()
+	seq, seqOK := r.w.inspect(txBytes)
 	if r.slow {
 		time.Sleep(nodeSlowness)
 	}
+	// which attempt does this tx belong to? (its account sequence says so)
+	r.w.mu.Lock()
+	r.w.nodeCalls[r.kind]++
+	at := int64(seq) - int64(r.w.c.Seq) - r.w.subBase
+	mine := seqOK && at >= 0 // a tx of the running submission
+	if !mine || at != r.w.attempt.Load() {
+		r.w.lateCalls++ // the submitter has moved on already: nobody reads this answer (a node still accepts the tx)
+	}
+	o := r.w.outcomeAt(at)
+	r.w.mu.Unlock()
 	if r.second == 1 {
 		return nil, fmt.Errorf("connection refused")
 	}
-	at := r.w.attempt.Load()
+	if !mine {
+		return nil, fmt.Errorf("stale broadcast call")
+	}
 	h := hashOf(at)
 	if r.second == 2 {
 		return &coretypes.ResultBroadcastTx{Code: 5, Codespace: sdkerrors.RootCodespace, Log: "insufficient funds", Hash: h}, nil
 	}
-	switch r.w.outcome() {
+	switch o {
 	case oBcastErr:
 		return nil, fmt.Errorf("post failed: EOF")
 	case oBcastCache:
@@ -385,6 +415,7 @@ func (r *rpcStub) BroadcastTxSync(_ context.Context, txBytes cmttypes.Tx) (*core
 	}
 	r.w.mu.Lock()
 	r.w.accepted[at]++
+	r.w.acceptLog = append(r.w.acceptLog, fmt.Sprintf("[seq %d base %d attempt %d running %d node %s outcome %s]", seq, r.w.subBase, at, r.w.attempt.Load(), nodeKindName[r.kind], outcomeName[o]))
 	r.w.mu.Unlock()
 	return &coretypes.ResultBroadcastTx{Code: 0, Hash: h}, nil
 }
@@ -395,7 +426,7 @@ func (r *rpcStub) BroadcastTxAsync(ctx context.Context, txBytes cmttypes.Tx) (*c
 
 // inspect decodes what is being broadcast (statistics only): a MsgExec carrying one MsgSubmitSignalPrices with
 // prices for the daemon's validator.
-func (w *submitWorld) inspect(txBytes []byte) {
+func (w *submitWorld) inspect(txBytes []byte) (seq uint64, seqOK bool) {
 	w.mu.Lock()
 	defer w.mu.Unlock()
 	good := false
@@ -409,10 +440,15 @@ func (w *submitWorld) inspect(txBytes []byte) {
 	}()
 	tx, err := w.txCfg.TxDecoder()(txBytes)
 	if err != nil || len(tx.GetMsgs()) != 1 {
-		return
+		return 0, false
 	}
 	if ft, ok := tx.(sdk.FeeTx); ok {
 		w.gasSeen = append(w.gasSeen, ft.GetGas())
+	}
+	if st, ok := tx.(authsigning.SigVerifiableTx); ok {
+		if sigs, serr := st.GetSignaturesV2(); serr == nil && len(sigs) == 1 {
+			seq, seqOK = sigs[0].Sequence, true
+		}
 	}
 	exec, ok := tx.GetMsgs()[0].(*authz.MsgExec)
 	if !ok {
@@ -427,6 +463,7 @@ func (w *submitWorld) inspect(txBytes []byte) {
 		return
 	}
 	good = true
+	return
 }
 
 // ---- run -----------------------------------------------------------------------------------------------------------
@@ -509,8 +546,22 @@ func runSubmit(c submitCase) *pbt.Verdict {
 	pending := &sync.Map{}
 	submitCh := make(chan submitter.SignalPriceSubmission, 1)
 	valAddr := fx.ch.Vals[0].Val
+	// The production polling loop gives up after broadcastTimeout of wall time. Cases that contain a "tx never found"
+	// outcome need it small (every such attempt costs the whole timeout); in all other cases every tx query is
+	// answered after a drawn number of polls, so the timeout is made so long that it can never be what ends the loop,
+	// and nothing the check asserts depends on how fast the machine is.
+	hasTimeout := false
+	for _, sp := range c.Subs {
+		for _, o := range sp.Outcomes {
+			hasTimeout = hasTimeout || o == oTxTimeout
+		}
+	}
+	broadcastTimeout := 30 * time.Second
+	if hasTimeout {
+		broadcastTimeout = 5 * time.Millisecond
+	}
 	sm, err := submitter.New(clientCtx, clients, monStub{mode: ((c.Mon % 4) + 4) % 4}, silentLogger(), submitCh, w, w, valAddr, pending,
-		5*time.Millisecond, c.MaxTry, 50*time.Microsecond, "0uband")
+		broadcastTimeout, c.MaxTry, 50*time.Microsecond, "0uband")
 	if err != nil {
 		v.Failf("C20/harness-setup", "submitter.New: %v", err)
 		return v
@@ -566,6 +617,8 @@ func runSubmit(c submitCase) *pbt.Verdict {
 		w.polls = map[string]int{}
 		w.executed = nil
 		w.accepted, w.txQueried, w.txShownOK = map[int64]int{}, map[string]int{}, map[string]int{}
+		w.subBase = w.global.Load()
+		w.acceptLog = nil
 		w.mu.Unlock()
 		w.attempt.Store(-1)
 
@@ -646,9 +699,9 @@ func runSubmit(c submitCase) *pbt.Verdict {
 			hash := strings.ToLower(hex.EncodeToString(hashOf(int64(a))))
 			more := len(executed) - a - 1
 			switch {
-			case more > 0 && w.txQueried[hash] == 0:
-				v.Failf("C20/resubmitted-without-follow-up", "submission %d (%s, nodes %v): attempt %d was accepted by %d node(s) (CheckTx code 0), yet the submitter never looked for that tx and broadcast the same prices %d more time(s)",
-					si, what, nodeNames(clients), a, w.accepted[int64(a)], more)
+			case more > 0 && w.txQueried[hash] == 0 && !hasTimeout: // (with the 5 ms timeout the loop may end before its first poll on a stalled machine)
+				v.Failf("C20/resubmitted-without-follow-up", "submission %d (%s, nodes %v): attempt %d was accepted by %d node(s) (CheckTx code 0), yet the submitter never looked for that tx and broadcast the same prices %d more time(s); accepted broadcasts: %v",
+					si, what, nodeNames(clients), a, w.accepted[int64(a)], more, w.acceptLog)
 			case more > 0 && w.txShownOK[hash] > 0:
 				v.Failf("C20/resubmitted-after-success", "submission %d (%s, nodes %v): the tx of attempt %d was shown executed with code 0, yet the same prices were broadcast %d more time(s)",
 					si, what, nodeNames(clients), a, more)
@@ -697,10 +750,14 @@ func runSubmit(c submitCase) *pbt.Verdict {
 	v.Count("submissions_gave_up", gaveUp)
 	v.Count("broadcast_tx_wellformed", w.msgOK)
 	v.Count("broadcast_tx_malformed", w.msgBad)
+	v.Count("broadcast_calls_answered_after_the_submitter_moved_on", w.lateCalls)
 	v.Count("attempts_accepted_by_a_node", acceptedAttempts)
 	v.Count("attempts_accepted_while_another_node_faulty", acceptedDespiteFaultyNode)
 	for k, n := range w.nodeCalls {
 		v.Count("broadcast_calls_node_"+nodeKindName[k], int64(n))
+	}
+	if hasTimeout {
+		v.Class("B:tx-timeout-case")
 	}
 	if len(clients) >= 2 {
 		v.Class("B:multi-node")
